@@ -249,7 +249,8 @@ def sequence_otel_event_job(
 def update_event_type_based_on_children(
     otel_event: OTelEvent,
     otel_events_job: dict[str, OTelEvent],
-    event_type_map_information: OTelEventTypeMap
+    event_type_map_information: OTelEventTypeMap,
+    original_event_types: dict[str, str] | None = None,
 ) -> None:
     """Update event type based on children and given mapping information.
 
@@ -259,6 +260,10 @@ def update_event_type_based_on_children(
     :type otel_events_job: `dict`[`str`, :class:`OTelEvent`]
     :param event_type_map_information: An OTelEventTypeMap.
     :type event_type_map_information: :class:`OTelEventTypeMap`
+    :param original_event_types: A dictionary mapping event IDs to the event
+    types before any update, used instead of the current child event types if
+    given, defaults to None.
+    :type original_event_types: `dict`[`str`, `str`] | `None`
     :raises KeyError: If a child event ID is not found in the job.
     """
     if otel_event.child_event_ids is None:
@@ -270,10 +275,11 @@ def update_event_type_based_on_children(
             raise KeyError(
                 f"Child event ID {child_event_id} not found in job."
             )
-        if (
-            child_event.event_type
-            in event_type_map_information.child_event_types
-        ):
+        if original_event_types is None:
+            child_event_type = child_event.event_type
+        else:
+            child_event_type = original_event_types[child_event_id]
+        if child_event_type in event_type_map_information.child_event_types:
             otel_event.event_type = (
                 event_type_map_information.mapped_event_type
             )
@@ -293,11 +299,18 @@ def update_event_types_based_on_children(
     groups of event types.
     :type event_type_map_information: `dict`[`str`, `set`[`str`]]
     """
+    # updates are decided on the event types as ingested so that the result
+    # does not depend on the order of the events in the job
+    original_event_types = {
+        event_id: event.event_type
+        for event_id, event in otel_events_job.items()
+    }
     for event in otel_events_job.values():
         if event.event_type in event_types_map_information:
             update_event_type_based_on_children(
                 event, otel_events_job,
-                event_types_map_information[event.event_type]
+                event_types_map_information[event.event_type],
+                original_event_types,
             )
 
 
